@@ -47,6 +47,8 @@ ASSUMPTIONS = [
     'same array must return bit-identical results (otherwise x_to_angles(angles_to_x(a)) == a fails for the caller\'s own a)',
     'call histories: every call in a sequence of calls on identical data with a different latitude/units keyword must be right for '
     'its own keyword; sequences of length 2 and 3, preceded by a fixed separator call',
+    'gcirc in mixed calling conventions (scalar vs array in both orders, 0-d and length-1 arrays, Python lists) must return the '
+    'broadcast shape and the values of the all-array call; the angle conversions are also run on every set of 1..5 points',
     'nothing is claimed between lattice points',
 ]
 
@@ -203,6 +205,60 @@ def gcirc_check(units, form, p1, p2, same):
         res.append(('gcirc:repeat-call-differs' + u, repeat & ~modified))
     msgs = (g12, g21, T)
     return [(s, m, msgs) for s, m in res if m.any()], g12 / scale
+
+
+MIXED_FORMS = ['scalar-array', 'array-scalar', '0d-array', 'len1-array', 'list-list', 'list-scalar', '0d-0d']
+
+
+def gcirc_mixed_check(units, form, p1, P2):
+    """One base point p1 = (ra, dec) against the array P2 (n,2), passed in a mixed calling convention.
+    The result must have the broadcast shape and agree element-wise with the all-array call and with the oracle."""
+    from pydl.goddard.astro import gcirc
+    P2 = np.asarray(P2, dtype=np.float64)
+    n = len(P2)
+    a1, d1 = gcirc_inputs(units, np.full(n, p1[0]), np.full(n, p1[1]))
+    a2, d2 = gcirc_inputs(units, P2[:, 0], P2[:, 1])
+    u = ':%s:units=%d' % (form, units)
+    s1 = (float(a1[0]), float(d1[0]))
+    shape = (n,)
+    try:
+        if form == 'scalar-array':
+            g = gcirc(s1[0], s1[1], a2.copy(), d2.copy(), units=units)
+        elif form == 'array-scalar':
+            g = gcirc(a2.copy(), d2.copy(), s1[0], s1[1], units=units)
+        elif form == '0d-array':
+            g = gcirc(np.array(s1[0]), np.array(s1[1]), a2.copy(), d2.copy(), units=units)
+        elif form == 'len1-array':
+            g = gcirc(np.array([s1[0]]), np.array([s1[1]]), a2.copy(), d2.copy(), units=units)
+        elif form == 'list-list':
+            g = gcirc(a1.tolist(), d1.tolist(), a2.tolist(), d2.tolist(), units=units)
+        elif form == 'list-scalar':
+            g = gcirc(a2.tolist(), d2.tolist(), s1[0], s1[1], units=units)
+        elif form == '0d-0d':
+            g = gcirc(np.array(s1[0]), np.array(s1[1]), np.array(a2[0]), np.array(d2[0]), units=units)
+            shape = ()
+        else:
+            raise ValueError(form)
+    except Exception as e:  # noqa: BLE001
+        return [('gcirc:mixed-call:exception:%s%s' % (type(e).__name__, u), repr(e))]
+    if np.shape(g) != shape:
+        return [('gcirc:mixed-call:result-shape' + u, 'result shape %s, broadcast shape of the arguments %s' % (np.shape(g), shape))]
+    g = np.atleast_1d(np.asarray(g, dtype=np.float64))
+    m = len(g)
+    ref = np.asarray(gcirc(a1[:m].copy(), d1[:m].copy(), a2[:m].copy(), d2[:m].copy(), units=units), dtype=np.float64)
+    scale = 1.0 if units == 0 else 1.0 / ARCSEC
+    T = (gcirc_truth(units, a1[:m], d1[:m], a2[:m], d2[:m]) * LD(scale)).astype(np.float64)
+    tol = REL * T + FLOOR * scale
+    out = []
+    bad = ~(np.abs(g - ref) <= tol)
+    if bad.any():
+        k = int(np.nonzero(bad)[0][0])
+        out.append(('gcirc:mixed-call:differs-from-array-call' + u, 'element %d: %r, all-array call %r' % (k, float(g[k]), float(ref[k]))))
+    bad = ~(np.abs(g - T) <= tol)
+    if bad.any():
+        k = int(np.nonzero(bad)[0][0])
+        out.append(('gcirc:mixed-call:value' + u, 'element %d: %r, vector formula %r' % (k, float(g[k]), float(T[k]))))
+    return out
 
 
 # ------------------------------------------------------------------------------------------ munu
@@ -765,6 +821,7 @@ def run_gcirc(acc, task):
             _bulk(acc, kk, ~sm, 'gcirc:units=%d:%s' % (units, form), fails)
             if form == 'array' and g is not None:
                 ref[units] = g
+    run_gcirc_mixed(acc, task)
     # the three conventions agree with each other
     if 2 in ref:
         T = gcirc_truth(2, P1[:, 0], P1[:, 1], P2[:, 0], P2[:, 1]).astype(np.float64)
@@ -779,6 +836,24 @@ def run_gcirc(acc, task):
                 if len(idx) > 3:
                     acc.viol_count[sig] += len(idx) - 3
                 _bulk(acc, keys * np.uint64(8) + np.uint64(6 + u), ~same, 'gcirc:units=%d-vs-2' % u, {sig: m} if m.any() else {})
+
+
+def run_gcirc_mixed(acc, task):
+    P1, P2, _same, keys = gcirc_pairs(task['col'], task['nra'], task['ndec'], task['kstep'], task['npa'])
+    per = len(P1) // task['ndec']
+    for j in range(task['ndec']):
+        p1 = P1[j * per].tolist()
+        Q = P2[j * per:(j + 1) * per]
+        for units in (2, 1, 0):
+            res = {}
+            for form in MIXED_FORMS:
+                v = gcirc_mixed_check(units, form, p1, Q)
+                res[form] = v
+                keyd = ('gcirc-mixed', task['col'], j, form, units)
+                acc.case(keyd, True, 'ok:gcirc:mixed:%s' % form if not v else 'bad:' + v[0][0])
+                for sig, msg in v:
+                    acc.violation(sig, {'layer': 'gcirc-mixed', 'units': units, 'form': form, 'p1': p1,
+                                        'p2': Q[[0, len(Q) // 2, len(Q) - 1]].tolist()}, msg)
 
 
 def _case_pts(P, idx):
@@ -858,8 +933,26 @@ def run_munu(acc, task):
               np.full(len(S), nt), 'munu:graph:scalar', sf)
 
 
+def small_angle_sets(latitude, T):
+    """Every run of 1..5 consecutive directions of a generic (non-symmetric) sequence of directions."""
+    m = 60 if T else 24
+    G = []
+    for i in range(m):
+        phi = (37.3 * i + 3.1) % 360.0
+        th = 11.0 + 157.0 * ((i * 0.6180339887498949) % 1.0)
+        G.append((phi, 90.0 - th if latitude else th))
+    G = np.array(G, dtype=np.float64)
+    return [(n, st, G[st:st + n]) for n in range(1, 6) for st in range(0, m - n + 1)]
+
+
 def run_angles(acc, task):
     lat = task['latitude']
+    for n, st, S in small_angle_sets(lat, task['T']):
+        res = angles_check(lat, S)
+        acc.case(('angles-small', lat, n, st), True, 'ok:angles:%d-points:latitude=%s' % (n, lat) if not res
+                 else 'bad:' + res[0][0])
+        for sig, _idx, msg in res:
+            acc.violation(sig + ':%d-points' % n, {'layer': 'angles', 'latitude': lat, 'a': S.tolist(), 'npoints': n}, msg)
     A = angle_lattice(lat, task['T'])
     res = angles_check(lat, A)
     fails = {}
@@ -909,6 +1002,8 @@ def replay(case):
         res, _g = gcirc_check(case['units'], case['form'], p1, p2, same)
         return [(s, 'gcirc -> %r / reversed %r, vector formula %r' % tuple(float(x[0]) for x in msgs) if msgs else '')
                 for s, _m, msgs in res]
+    if layer == 'gcirc-mixed':
+        return gcirc_mixed_check(case['units'], case['form'], case['p1'], case['p2'])
     if layer == 'gcirc-units':
         p1 = np.array([case['p1']], dtype=np.float64)
         p2 = np.array([case['p2']], dtype=np.float64)
@@ -933,5 +1028,6 @@ def replay(case):
     if layer == 'circle':
         return [(s, m) for s, _k, _i, m in circle_check(case['stripe'], case['route'], case['t'])]
     if layer == 'angles':
-        return [(s, m) for s, _i, m in angles_check(case['latitude'], np.array(case['a'], dtype=np.float64))]
+        suffix = ':%d-points' % case['npoints'] if 'npoints' in case else ''
+        return [(s + suffix, m) for s, _i, m in angles_check(case['latitude'], np.array(case['a'], dtype=np.float64))]
     raise ValueError('unknown layer %r' % layer)
